@@ -10,6 +10,14 @@ import StirVerif.C14.Model
     lmcfg nvox=<V> dtf=<0|1> s=<ms> e=<ms> nev=<num_events_to_use> cache=<events per batch> nsub=<n> add=<0|1>   -> ok
     lmimg <f>…(V)                                   current image (C99 hex floats)                              -> ok
     lmbin <seg> <view> <ax> <tang> <tof> <basic view> <a|-> <m> (<voxel> <p>)…(m)   row / additive term of a bin -> ok
+    Normalisation in LmToProjData (family 3 of the harness):
+    cfg norm <pre|post>                                                                       -> ok
+    cfg cc <view mashing factor> (<seg>:<ax>:<number of ring pairs>)*                         -> ok
+    cfg eff (<seg>:<view>:<ax>:<tang>:<tof>:<efficiency, hex float>)*    post-normalisation   -> ok
+    stream … E<p|d>:<bin|x>:u<number of the uncompressed bin>:<efficiency, hex float> | E<p|d>:<bin|x>:ux   (pre-normalisation)
+    runw <as run>  -> t=<last time> sim=<n> | <frame> …; a frame = the output bins that received additions
+                      `seg,view,ax,tang,tof=<round(exact·2^100)>:<ceil(bound·2^100)>`: the model's `processDataW` (on `preStream` of
+                      the stream for pre-normalisation) evaluated exactly in `Rat`; bound = 4·(n+3)·2⁻²⁴·Σ|terms| for n additions
     lmgps <subset>   -> per voxel `<round(exact·2^100)>:<ceil(bound·2^100)>`: the model's `lmContribs` on the batches
                         `lmEvents` (event selection, batches, subset test, 1/(row·image+add) back projected) evaluated
                         exactly in `Rat`; bound = forward error bound 4·n·2⁻²⁴·Σ|terms|, n = longest row + number of
@@ -20,6 +28,12 @@ open StirVerif.C14
 structure St where
   tpl : Template
   recs : List Record
+  preRecs : List (PreRecord Rat) := []
+  /-- 0: none, 1: post-normalisation, 2: pre-normalisation -/
+  normMode : Nat := 0
+  viewMash : Int := 1
+  ringPairs : List ((Int × Int) × Int) := []
+  effs : List (Bin × Rat) := []
   lm : LmCfg
   nvox : Nat := 0
   nsub : Int := 1
@@ -106,14 +120,48 @@ def parseFrames : List String → List (Int × Int)
   | a :: b :: r => (I a, I b) :: parseFrames r
   | _ => []
 
-def parseRec (tok : String) : Option Record :=
+/-- a record with the optional pre-normalisation fields (`u<id>:<eff>` / `ux`) -/
+def parsePreRec (tok : String) : Option (PreRecord Rat) :=
   if tok.startsWith "T" then some (.time (I (tok.drop 1).toString))
   else if tok.startsWith "E" then
     match (tok.drop 1).toString.splitOn ":" with
-    | [k, "x"] => some (.event ⟨none, k == "p"⟩)
-    | [k, a, b, c, d, e] => some (.event ⟨some ⟨I a, I b, I c, I d, I e⟩, k == "p"⟩)
+    | k :: rest =>
+      let (bin?, tail) : Option Bin × List String := match rest with
+        | "x" :: t => (none, t)
+        | a :: b :: c :: d :: e :: t => (some ⟨I a, I b, I c, I d, I e, 0⟩, t)
+        | t => (none, t)
+      let unc : Option (Int × Rat) := match tail with
+        | [u, eff] => some (I (u.drop 1).toString, hexD eff)
+        | _ => none
+      some (.event ⟨bin?, unc, k == "p"⟩)
     | _ => none
   else none
+
+/-- the stream as a run without pre-normalisation sees it -/
+def plainRec : PreRecord Rat → Record
+  | .time t => .time t
+  | .event e => .event ⟨e.bin, e.prompt⟩
+
+/-- the double `1.E-10` (LmToProjData.cxx:505, 560), exactly -/
+def lowThreshold : Rat := (7737125245533627 : Int) / ((2 ^ 86 : Nat) : Int)
+def tooLow (q : Rat) : Bool := decide (q < lowThreshold)
+
+def binLt' (a b : Bin) : Bool :=
+  if a.tof ≠ b.tof then a.tof < b.tof
+  else if a.seg ≠ b.seg then a.seg < b.seg
+  else if a.view ≠ b.view then a.view < b.view
+  else if a.ax ≠ b.ax then a.ax < b.ax
+  else a.tang < b.tang
+
+def fmtFrameW (l : List (Bin × Rat)) : String :=
+  let keys := (l.map (·.1.key)).eraseDups
+  let sorted := (keys.toArray.qsort binLt').toList
+  if sorted.isEmpty then "-"
+  else " ".intercalate (sorted.map fun k =>
+    let terms := (l.filter fun a => a.1.key == k).map (·.2)
+    let mag := terms.foldl (fun m t => m + absR t) 0
+    let n : Rat := (terms.length : Int) + 3
+    s!"{k.seg},{k.view},{k.ax},{k.tang},{k.tof}={roundScaled (valueW l k)}:{ceilScaled (4 * n * u24 * mag)}")
 
 def binLt (a b : Bin) : Bool :=
   if a.tof ≠ b.tof then a.tof < b.tof
@@ -139,8 +187,38 @@ def stepLine (st : St) (line : String) : St × String :=
     ({ st with tpl := { minSeg := minSeg, maxSeg := I b, minTof := I c, maxTof := I d, minTang := I e, maxTang := I f,
                         axRange := axRange } }, "ok")
   | "stream" :: rs =>
-    let recs := rs.filterMap parseRec
-    ({ st with recs := recs }, s!"ok {recs.length}")
+    let pre := rs.filterMap parsePreRec
+    ({ st with recs := pre.map plainRec, preRecs := pre }, s!"ok {pre.length}")
+  | ["cfg", "norm", m] => ({ st with normMode := if m == "pre" then 2 else 1, ringPairs := [], effs := [], viewMash := 1 }, "ok")
+  | "cfg" :: "cc" :: vm :: rest =>
+    let rp := rest.filterMap fun t => match t.splitOn ":" with
+      | [a, b, n] => some ((I a, I b), I n)
+      | _ => none
+    ({ st with viewMash := I vm, ringPairs := rp }, "ok")
+  | "cfg" :: "eff" :: rest =>
+    let ef := rest.filterMap fun t => match t.splitOn ":" with
+      | [a, b, c, d, e, x] => some ((⟨I a, I b, I c, I d, I e, 0⟩ : Bin), hexD x)
+      | _ => none
+    ({ st with effs := ef }, "ok")
+  | "runw" :: sp :: sd :: segs :: tofs :: nev :: maxseg :: ff :: om :: _n :: fr =>
+    let p : Params := { storePrompts := sp == "1", storeDelayeds := sd == "1", segsInMemory := I segs, tofInMemory := I tofs,
+                        numEventsToStore := I nev, maxSegToProcess := I maxseg, framesFromFile := ff == "1",
+                        frames := parseFrames fr }
+    match setUp st.tpl p with
+    | none => (st, "err")
+    | some c =>
+      let uncEff : Int → Rat := fun u =>
+        (st.preRecs.findSome? fun r => match r with
+          | .event e => (match e.unc with | some (u', x) => if u' = u then some x else none | none => none)
+          | .time _ => none).getD 1
+      let nrm : Norm Rat :=
+        if st.normMode == 2 then
+          .pre uncEff (fun b => ((st.ringPairs.find? fun x => x.1 == (b.seg, b.ax)).map (·.2)).getD 0 * st.viewMash)
+        else .post (fun b => ((st.effs.find? fun x => x.1 == b).map (·.2)).getD 1)
+      let recs := if st.normMode == 2 then preStream tooLow st.preRecs else st.recs
+      let (frames, cur) := processDataW tooLow nrm c recs
+      let shown := if om == "1" then frames.drop (frames.length - 1) else frames
+      (st, s!"t={cur} sim={c.segsInMemory}" ++ String.join (shown.map fun a => " | " ++ fmtFrameW a))
   | "run" :: sp :: sd :: segs :: tofs :: nev :: maxseg :: ff :: om :: _n :: fr =>
     let p : Params := { storePrompts := sp == "1", storeDelayeds := sd == "1", segsInMemory := I segs, tofInMemory := I tofs,
                         numEventsToStore := I nev, maxSegToProcess := I maxseg, framesFromFile := ff == "1",
@@ -162,7 +240,7 @@ def stepLine (st : St) (line : String) : St × String :=
     | none => (st, "bad-row")
     | some row =>
       let av : Rat := if add == "-" then 0 else hexD add
-      ({ st with bins := (⟨I a, I b, I c, I d, I e⟩, { row := row, add := av, basicView := I bv }) :: st.bins }, "ok")
+      ({ st with bins := (⟨I a, I b, I c, I d, I e, 0⟩, { row := row, add := av, basicView := I bv }) :: st.bins }, "ok")
   | ["lmgps", sub] => (st, doLmGps st (I sub))
   | _ => (st, "bad-op")
 
